@@ -115,7 +115,10 @@ fn pairs(u: &mut Unstructured, uni: u32, dom: u8, max: usize) -> Result<Vec<Pair
 
 pub fn decode_op(u: &mut Unstructured, kind: Kind, uni: u32, dom: u8, leaks: bool) -> Result<Op> {
     let endhow = |u: &mut Unstructured| -> Result<EndHow> { Ok(if leaks && u.int_in_range(0u8..=4)? == 0 { EndHow::Forget } else { EndHow::Drop }) };
-    Ok(match u.int_in_range(0u8..=63)? {
+    Ok(match u.int_in_range(0u8..=67)? {
+        64 => Op::Snapshot,
+        65 | 66 => Op::RestoreFrom,
+        67 => Op::Adapt { which: ItKind::IterMut, comp: *u.choose(&crate::gen::ALL_COMPS)?, a: u.arbitrary()?, b: u.arbitrary()? },
         0..=9 => Op::Push { t: target(u, uni)?, tag: u.arbitrary()?, p: prio_spec(u, dom)? },
         10 | 11 => Op::PushInc { t: target(u, uni)?, tag: u.arbitrary()?, p: prio_spec(u, dom)? },
         12 | 13 => Op::PushDec { t: target(u, uni)?, tag: u.arbitrary()?, p: prio_spec(u, dom)? },
@@ -147,9 +150,10 @@ pub fn decode_op(u: &mut Unstructured, kind: Kind, uni: u32, dom: u8, leaks: boo
         51 => Op::RebuildFromIter { extra: pairs(u, uni, dom, 16)?, hint: hint(u)? },
         52 => Op::ConvertRound,
         53 => Op::Serde {
-            carrier: match u.int_in_range(0u8..=2)? {
+            carrier: match u.int_in_range(0u8..=3)? {
                 0 => Carrier::JsonText,
                 1 => Carrier::JsonValue,
+                2 => Carrier::InPlace,
                 _ => Carrier::SeqDe,
             },
             cross: u.arbitrary()?,
